@@ -45,6 +45,42 @@ end Lru
 
 namespace Server
 
+/-- the directory cache, when configured, has unique keys and respects its capacity -/
+def DcI (d : Option (Lru.Cache (List Bytes))) : Prop := ∀ c, d = some c → Lru.Inv c
+
+theorem DcI.map_invalidate {d : Option (Lru.Cache (List Bytes))} (h : DcI d) (p : Bytes) :
+    DcI (d.map fun c => Lru.invalidate c p) := by
+  intro c hc
+  cases d with
+  | none => simp at hc
+  | some c0 => simp only [Option.map_some, Option.some.injEq] at hc; rw [← hc]; exact Lru.inv_invalidate (h c0 rfl) p
+
+theorem DcI.map_invalidatePrefix {d : Option (Lru.Cache (List Bytes))} (h : DcI d) (p : Bytes) :
+    DcI (d.map fun c => Lru.invalidatePrefix c p) := by
+  intro c hc
+  cases d with
+  | none => simp at hc
+  | some c0 => simp only [Option.map_some, Option.some.injEq] at hc; rw [← hc]; exact Lru.inv_invalidatePrefix (h c0 rfl) p
+
+theorem DcI.map_get {d : Option (Lru.Cache (List Bytes))} (h : DcI d) (now : Nat) (p : Bytes) :
+    DcI (d.map fun c => (Lru.get c now p).1) := by
+  intro c hc
+  cases d with
+  | none => simp at hc
+  | some c0 => simp only [Option.map_some, Option.some.injEq] at hc; rw [← hc]; exact Lru.inv_get (h c0 rfl) now p
+
+theorem DcI.map_putIf {d : Option (Lru.Cache (List Bytes))} (h : DcI d) (P : Prop) [Decidable P] (now : Nat) (p : Bytes) (v : List Bytes) :
+    DcI (d.map fun c => if P then c else Lru.put c now p v) := by
+  intro c hc
+  cases d with
+  | none => simp at hc
+  | some c0 =>
+    simp only [Option.map_some, Option.some.injEq] at hc
+    rw [← hc]
+    split
+    · exact h c0 rfl
+    · exact Lru.inv_put (h c0 rfl) now p v
+
 structure CInv (s : St) : Prop where
   coh : AcCoherent s
   lru : Lru.Inv s.ac
@@ -53,6 +89,7 @@ structure CInv (s : St) : Prop where
   wf : Fs.WF s.fs
   htab : Handles.Inv s.cfg.defaultMaxHandles s.hs
   hdm : 0 < s.cfg.defaultMaxHandles
+  dci : DcI s.dc
 
 /-- an entry that was right stays right when Lstat shows the same at its path -/
 theorem entryOK_of_view {fs fs' : Fs.T} (hw : Fs.WF fs) (hw' : Fs.WF fs') (e : Lru.Entry Attrs)
@@ -73,12 +110,18 @@ theorem entryOK_of_view {fs fs' : Fs.T} (hw : Fs.WF fs) (hw' : Fs.WF fs') (e : L
     rw [← hv] at this
     exact Fs.lstat_err_of_view this
 
+/-- discharges `DcI s'.dc` when `s'` is a known state reached by directory-cache invalidations (or none) -/
+macro "dci_tac" : tactic =>
+  `(tactic| (try simp only [dcInv, dcInvPrefix, acInv, acInvNegIn, acInvPrefix, acPut, acPutNeg, acGet, invalidateForNew, updNodeAt, setNode, rememberExclusive];
+             repeat (first | apply DcI.map_invalidate | apply DcI.map_invalidatePrefix);
+             first | assumption | (apply CInv.dci; assumption)))
+
 /-- the general step: a new backend state and a cache whose entries all come from the old cache and sit at
     paths whose Lstat view did not change -/
 theorem cinv_step {s s' : St} (h : CInv s) (hhs : s'.hs = s.hs) (hw : Fs.WF s'.fs) (hlru : Lru.Inv s'.ac)
     (hsub : ∀ e ∈ s'.ac.entries, e ∈ s.ac.entries ∧
       Fs.viewAt s'.fs (fsPath e.key) = Fs.viewAt s.fs (fsPath e.key))
-    (hcfg : s'.cfg = s.cfg := by rfl) : CInv s' where
+    (hcfg : s'.cfg = s.cfg := by rfl) (hdci : DcI s'.dc := by dci_tac) : CInv s' where
   coh := fun e he => entryOK_of_view h.wf hw e (hsub e he).2 (h.coh e (hsub e he).1)
   lru := hlru
   keys := fun e he => h.keys e (hsub e he).1
@@ -86,11 +129,12 @@ theorem cinv_step {s s' : St} (h : CInv s) (hhs : s'.hs = s.hs) (hw : Fs.WF s'.f
   wf := hw
   htab := by rw [hcfg, hhs]; exact h.htab
   hdm := by rw [hcfg]; exact h.hdm
+  dci := hdci
 
 /-- changes outside the backend, the attribute cache and the handle table do not matter -/
 theorem cinv_congr {s s' : St} (h : CInv s) (h1 : s'.fs = s.fs) (h2 : s'.ac = s.ac) (h3 : s'.hs = s.hs)
-    (hcfg : s'.cfg = s.cfg := by rfl) : CInv s' := by
-  refine cinv_step h h3 (by rw [h1]; exact h.wf) (by rw [h2]; exact h.lru) ?_ hcfg
+    (hcfg : s'.cfg = s.cfg := by rfl) (hdci : DcI s'.dc := by dci_tac) : CInv s' := by
+  refine cinv_step h h3 (by rw [h1]; exact h.wf) (by rw [h2]; exact h.lru) ?_ hcfg hdci
   intro e he
   rw [h2] at he
   exact ⟨he, by rw [h1]⟩
@@ -123,6 +167,7 @@ theorem acPut_cinv {s : St} (h : CInv s) (now : Nat) (p : Bytes) (a : Attrs) (hp
   wf := h.wf
   htab := h.htab
   hdm := h.hdm
+  dci := h.dci
 
 theorem acPutNeg_cinv {s : St} (h : CInv s) (now : Nat) (p : Bytes) (hp : CleanPath p)
     (he : ∃ err, Fs.lstat s.fs (fsPath p) = .error err) : CInv (acPutNeg s now p) where
@@ -141,6 +186,7 @@ theorem acPutNeg_cinv {s : St} (h : CInv s) (now : Nat) (p : Bytes) (hp : CleanP
   wf := h.wf
   htab := h.htab
   hdm := h.hdm
+  dci := h.dci
 
 theorem lookupPath_cinv {s : St} (h : CInv s) (now : Nat) (p : Bytes) (hp : CleanPath p) : CInv (lookupPath s now p).1 := by
   unfold lookupPath
@@ -194,6 +240,7 @@ theorem allocate_cinv {s : St} (h : CInv s) (n : Node) (hp : CleanPath n.path) :
   wf := h.wf
   htab := Handles.inv_alloc _ _ h.hdm s.hs n.path (cleanPath_ne_nil hp) h.htab
   hdm := h.hdm
+  dci := h.dci
 
 theorem allocate_cinv' {s s' : St} {n : Node} {fh : Nat} (heq : allocate s n = (s', fh)) (h : CInv s) (hp : CleanPath n.path) :
     CInv s' := by
@@ -245,11 +292,11 @@ theorem lookupEach_cinv (s : St) (now : Nat) (dir : Bytes) (names : List Bytes) 
 theorem readDir_cinv (s : St) (now : Nat) (d : Node) (h : CInv s) (hd : CleanPath d.path) :
     CInv (readDir s now d).1 ∧ ∀ nodes, (readDir s now d).2 = .ok nodes →
       ∀ n ∈ nodes, CleanPath n.path ∧ n.attrs.fileId = fnv64 n.path := by
-  have key : ∀ (names : List Bytes) (s1 : St), s1.fs = s.fs → s1.ac = s.ac → s1.hs = s.hs ∧ s1.cfg = s.cfg →
+  have key : ∀ (names : List Bytes) (s1 : St), s1.fs = s.fs → s1.ac = s.ac → s1.hs = s.hs ∧ s1.cfg = s.cfg → DcI s1.dc →
       CInv (lookupEach s1 now d.path names).1 ∧
       ∀ n ∈ (lookupEach s1 now d.path names).2, CleanPath n.path ∧ n.attrs.fileId = fnv64 n.path := by
-    intro names s1 a b c
-    have hs1 := cinv_congr h a b c.1 c.2
+    intro names s1 a b c dd
+    have hs1 := cinv_congr h a b c.1 c.2 dd
     have h1 := lookupEach_cinv s1 now d.path names hs1 hd
     have h2 := lookupEach_fileIds s1 now d.path names hs1.coh
     exact ⟨h1.1, fun n hn => ⟨h1.2 n hn, h2 n hn⟩⟩
@@ -257,29 +304,40 @@ theorem readDir_cinv (s : St) (now : Nat) (d : Node) (h : CInv s) (hd : CleanPat
   simp only
   split
   · rename_i s1 names heq
-    have hs1 : s1.fs = s.fs ∧ s1.ac = s.ac ∧ s1.hs = s.hs ∧ s1.cfg = s.cfg := by
+    have hs1 : s1.fs = s.fs ∧ s1.ac = s.ac ∧ s1.hs = s.hs ∧ s1.cfg = s.cfg ∧ DcI s1.dc := by
       split at heq
       · simp at heq
-      · split at heq
-        · simp only [Option.some.injEq, Prod.mk.injEq] at heq
-          rw [← heq.1]; exact ⟨rfl, rfl, rfl, rfl⟩
+      · rename_i c0 hc0
+        split at heq
+        · rename_i c1 nm hget
+          simp only [Option.some.injEq, Prod.mk.injEq] at heq
+          rw [← heq.1]
+          refine ⟨rfl, rfl, rfl, rfl, ?_⟩
+          intro c hc
+          simp only [Option.some.injEq] at hc
+          rw [← hc]
+          have := Lru.inv_get (h.dci c0 hc0) now d.path
+          rw [hget] at this; exact this
         · simp at heq
-    have := key names s1 hs1.1 hs1.2.1 hs1.2.2
+    have := key names s1 hs1.1 hs1.2.1 ⟨hs1.2.2.1, hs1.2.2.2.1⟩ hs1.2.2.2.2
     exact ⟨this.1, fun nodes hn => by simp only [Except.ok.injEq] at hn; rw [← hn]; exact this.2⟩
-  · split
-    · exact ⟨cinv_congr h rfl rfl rfl, fun nodes hn => by simp at hn⟩
+  · have hg : DcI (s.dc.map fun c => (Lru.get c now d.path).1) := h.dci.map_get now d.path
+    split
+    · exact ⟨cinv_congr h rfl rfl rfl rfl hg, fun nodes hn => by simp at hn⟩
     · rename_i ents _
       simp only
-      refine ⟨(key _ _ ?_ ?_ ?_).1, fun nodes hn => ?_⟩
+      refine ⟨(key _ _ ?_ ?_ ?_ ?_).1, fun nodes hn => ?_⟩
       · rfl
       · rfl
       · exact ⟨rfl, rfl⟩
+      · exact hg.map_putIf _ now d.path _
       · simp only [Except.ok.injEq] at hn
         rw [← hn]
-        refine (key _ _ ?_ ?_ ?_).2
+        refine (key _ _ ?_ ?_ ?_ ?_).2
         · rfl
         · rfl
         · exact ⟨rfl, rfl⟩
+        · exact hg.map_putIf _ now d.path _
 
 theorem refreshEach_cinv (s : St) (now : Nat) (l : List Node) (h : CInv s) (hl : ∀ n ∈ l, CleanPath n.path)
     (hids : ∀ n ∈ l, n.attrs.fileId = fnv64 n.path) :
